@@ -252,4 +252,8 @@ func init() {
 		"	data, err := w.tx.Encode(ctx, entry)\n	if err != nil {", "	data, err := w.tx.Encode(ctx, entry)\n	if err != nil && len(w.indexes) == 0 {", "C17.ERR")
 	mut("C07", "an unresolvable leaseholder is skipped when other peers are already open", "core/pkg/distribution/framer/writer/peer.go",
 		"		target, err := s.cfg.HostResolver.Resolve(nodeKey)\n		if err != nil {", "		target, err := s.cfg.HostResolver.Resolve(nodeKey)\n		if err != nil && len(senders) == 0 {", "C07.ERR")
+	mut("C17", "the populate routine is started before the change observer is attached", "x/go/gorp/table.go",
+		"	t.disconnectObserver = attachIndexObserver[K, E](\n		override.Nil[observe.Observable[kv.TxReader]](cfg.DB, cfg.DB.IndexObservable),\n		cfg.DB,\n		cfg.Indexes,\n	)\n	// Populate runs on an isolated signal context: the caller's ctx is the\n	// open-operation ctx (may be short-lived, e.g. an open timeout), but\n	// populate must run for the Table's full lifetime. Termination flows\n	// through Table.Close().\n	sCtx, cancel := signal.Isolated(signal.WithInstrumentation(cfg.Instrumentation))\n	t.populateDone = sCtx.Stopped()\n	t.populateShutdown = signal.NewHardShutdown(sCtx, cancel)\n	sCtx.Go(\n		func(ctx context.Context) error {\n			t.runPopulate(ctx, cfg.Instrumentation, inserts, finishes)\n			return nil\n		},\n		signal.WithKey(\"gorp_index_populate\"),\n	)\n	return t, nil\n}\n\n// runPopulate scans", "	// Populate runs on an isolated signal context: the caller's ctx is the\n	// open-operation ctx (may be short-lived, e.g. an open timeout), but\n	// populate must run for the Table's full lifetime. Termination flows\n	// through Table.Close().\n	sCtx, cancel := signal.Isolated(signal.WithInstrumentation(cfg.Instrumentation))\n	t.populateDone = sCtx.Stopped()\n	t.populateShutdown = signal.NewHardShutdown(sCtx, cancel)\n	sCtx.Go(\n		func(ctx context.Context) error {\n			t.runPopulate(ctx, cfg.Instrumentation, inserts, finishes)\n			return nil\n		},\n		signal.WithKey(\"gorp_index_populate\"),\n	)\n	t.disconnectObserver = attachIndexObserver[K, E](\n		override.Nil[observe.Observable[kv.TxReader]](cfg.DB, cfg.DB.IndexObservable),\n		cfg.DB,\n		cfg.Indexes,\n	)\n	return t, nil\n}\n\n// runPopulate scans", "C17.R5.populate")
+	mut("C07", "the iterator's peer sender forwards only the per-command fields", "core/pkg/distribution/framer/iterator/peer.go",
+		"	out = in\n", "	out = Request{Command: in.Command, Span: in.Span, Stamp: in.Stamp, SeqNum: in.SeqNum}\n", "C07.R7.copy")
 }
